@@ -487,3 +487,563 @@ Proof.
     rewrite (report_errors_known _ _ _ _ Hm).
     specialize (IH st Hm). destruct (format_fields O c st src fs). exact IH.
 Qed.
+
+(* ------------------------------------------------------------------ frames of safe_to_stan / format_fields *)
+Lemma run_fallback_pdoc c fb ctx st : pdoc (snd (run_fallback c fb ctx st)) = pdoc st.
+Proof. destruct fb; reflexivity. Qed.
+
+Lemma run_fallback_pe c fb ctx st : parse_errors (snd (run_fallback c fb ctx st)) = parse_errors st.
+Proof. destruct fb; reflexivity. Qed.
+
+Lemma run_fallback_reports c fb ctx st : reports (snd (run_fallback c fb ctx st)) = reports st.
+Proof. destruct fb; reflexivity. Qed.
+
+Lemma safe_to_stan_pdoc O c st pd ctx fb rep sec : pdoc (snd (safe_to_stan O c st pd ctx fb rep sec)) = pdoc st.
+Proof.
+  destruct (to_stan_p O pd) as [s|] eqn:E.
+  - rewrite (safe_to_stan_ok _ _ _ _ _ _ _ _ _ E). reflexivity.
+  - rewrite (safe_to_stan_fail _ _ _ _ _ _ _ _ E). cbn [snd].
+    destruct rep; [rewrite report_errors_pdoc|]; apply run_fallback_pdoc.
+Qed.
+
+Lemma safe_to_stan_mem_monotone O c st pd ctx fb rep sec s x :
+  mem_pe s x (parse_errors st) = true ->
+  mem_pe s x (parse_errors (snd (safe_to_stan O c st pd ctx fb rep sec))) = true.
+Proof.
+  intros H. destruct (to_stan_p O pd) as [r|] eqn:E.
+  - rewrite (safe_to_stan_ok _ _ _ _ _ _ _ _ _ E). exact H.
+  - rewrite (safe_to_stan_fail _ _ _ _ _ _ _ _ E). cbn [snd].
+    destruct rep; [apply report_errors_mem_monotone|]; rewrite run_fallback_pe; exact H.
+Qed.
+
+Lemma format_fields_pdoc O c st src fs : pdoc (snd (format_fields O c st src fs)) = pdoc st.
+Proof.
+  revert st. induction fs as [|f fs IH]; intros st; cbn [format_fields]; [reflexivity|].
+  pose proof (safe_to_stan_pdoc O c st (PMark f) src FB_broken true SEC_DOCSTRING) as H1.
+  destruct (safe_to_stan O c st (PMark f) src FB_broken true SEC_DOCSTRING) as [s st1]. cbn [snd] in H1.
+  pose proof (IH st1) as H2. destruct (format_fields O c st1 src fs) as [ss st2]. cbn [snd] in *. congruence.
+Qed.
+
+Lemma format_fields_mem_monotone O c st src fs s x :
+  mem_pe s x (parse_errors st) = true -> mem_pe s x (parse_errors (snd (format_fields O c st src fs))) = true.
+Proof.
+  revert st. induction fs as [|f fs IH]; intros st H; cbn [format_fields]; [exact H|].
+  pose proof (safe_to_stan_mem_monotone O c st (PMark f) src FB_broken true SEC_DOCSTRING s x H) as H1.
+  destruct (safe_to_stan O c st (PMark f) src FB_broken true SEC_DOCSTRING) as [r st1]. cbn [snd] in H1.
+  pose proof (IH st1 H1) as H2. destruct (format_fields O c st1 src fs) as [ss st2]. exact H2.
+Qed.
+
+Lemma format_fields_reports_prefix O c st src fs :
+  exists d, reports (snd (format_fields O c st src fs)) = reports st ++ d.
+Proof. destruct (format_fields_touches O c st src fs) as (_ & d & H & _). exists d. exact H. Qed.
+
+(* ------------------------------------------------------------------ format_docstring: the four situations *)
+Definition render_with (O : oracles) (c : config) (st : state) (pd : parsed) (src : oid) : docres * state :=
+  let r := safe_to_stan O c st pd src FB_docstring true SEC_DOCSTRING in
+  let rf := format_fields O c (snd r) src (fields_p O pd) in
+  ({| d_body := BStan (fst r); d_fields := fst rf |}, snd rf).
+
+Lemma format_docstring_fresh O c st o a t :
+  docstring c o = Some (a :: t) -> pdoc st o = None ->
+  format_docstring O c st o =
+  render_with O c (parsed_state O c st o (a :: t)) (fst (parse_outcome O c (applicable_format c o) (a :: t))) o.
+Proof.
+  intros Hd Hp. unfold format_docstring, render_with. rewrite (ensure_fresh _ _ _ _ _ _ Hd Hp), parsed_state_pdoc.
+  destruct (safe_to_stan O c _ _ o FB_docstring true SEC_DOCSTRING) as [s st2]. cbn [fst snd].
+  destruct (format_fields O c st2 o _) as [fs st3]. reflexivity.
+Qed.
+
+Lemma format_docstring_cached O c st o pd :
+  pdoc st o = Some pd ->
+  format_docstring O c st o =
+  match (match docstring c o with None => parent c o | Some _ => Some o end) with
+  | Some src => render_with O c st pd src
+  | None => ({| d_body := BUndocumented; d_fields := [] |}, st)
+  end.
+Proof.
+  intros Hp. unfold format_docstring, render_with. rewrite (ensure_cached _ _ _ _ _ Hp), Hp.
+  destruct (match docstring c o with None => parent c o | Some _ => Some o end) as [src|]; [|reflexivity].
+  destruct (safe_to_stan O c st pd src FB_docstring true SEC_DOCSTRING) as [s st2]. cbn [fst snd].
+  destruct (format_fields O c st2 src _) as [fs st3]. reflexivity.
+Qed.
+
+Lemma format_docstring_undocumented O c st o :
+  pdoc st o = None -> (docstring c o = None \/ docstring c o = Some []) ->
+  format_docstring O c st o = ({| d_body := BUndocumented; d_fields := [] |}, st).
+Proof.
+  intros Hp Hd. unfold format_docstring. rewrite ensure_eq. unfold ensure_spec. rewrite Hp.
+  destruct Hd as [-> | ->]; try rewrite Hp; reflexivity.
+Qed.
+
+(* render_with when the parsed docstring is plain text *)
+Lemma render_with_plain O c st t src :
+  render_with O c st (PPlain t) src = ({| d_body := BStan (SPre t); d_fields := [] |}, st).
+Proof. reflexivity. Qed.
+
+(* ------------------------------------------------------------------ C08_fallback_is_whole_text *)
+Theorem fallback_is_whole_text O c st o a t :
+  docstring c o = Some (a :: t) -> pdoc st o = None ->
+  gives_up O c (applicable_format c o) (a :: t) ->
+  format_docstring O c st o =
+  ({| d_body := BStan (SPre (a :: t)); d_fields := [] |}, parsed_state O c st o (a :: t)) /\
+  pdoc (parsed_state O c st o (a :: t)) o = Some (PPlain (a :: t)).
+Proof.
+  intros Hd Hp Hg. rewrite (format_docstring_fresh _ _ _ _ _ _ Hd Hp).
+  rewrite parsed_state_pdoc, (gives_up_outcome _ _ _ _ Hg), render_with_plain. split; reflexivity.
+Qed.
+
+(* once parsed as plain text, every later call shows the same text and changes nothing *)
+Lemma format_docstring_plain_cached O c st o t d :
+  docstring c o = Some d -> pdoc st o = Some (PPlain t) ->
+  format_docstring O c st o = ({| d_body := BStan (SPre t); d_fields := [] |}, st).
+Proof. intros Hd Hp. rewrite (format_docstring_cached _ _ _ _ _ Hp), Hd. apply render_with_plain. Qed.
+
+(* ------------------------------------------------------------------ C08_reported_against_object *)
+Lemma parsed_state_reported O c st o t :
+  snd (parse_outcome O c (applicable_format c o) t) <> [] ->
+  let st' := parsed_state O c st o t in
+  in_parse_errors st' SEC_DOCSTRING o /\
+  (mem_pe SEC_DOCSTRING o (parse_errors st) = false ->
+   exists e d, reports st' = reports st ++ (o, SEC_DOCSTRING, e) :: d /\ Forall (names o) d /\
+               (e :: map (fun r => snd r) d) = snd (parse_outcome O c (applicable_format c o) t)) /\
+  (mem_pe SEC_DOCSTRING o (parse_errors st) = true -> reports st' = reports st).
+Proof.
+  intros Hne. cbn zeta. unfold parsed_state, in_parse_errors. cbn [set_pdoc parse_errors reports].
+  split; [apply report_errors_mem_after; exact Hne|]. split.
+  - intros Hm. destruct (snd (parse_outcome O c (applicable_format c o) t)) as [|e errs]; [contradiction|].
+    rewrite (report_errors_new _ _ _ _ _ Hm). cbn [reports map].
+    exists e, (map (fun x => (o, SEC_DOCSTRING, x)) errs). split; [reflexivity|]. split.
+    + apply Forall_forall. intros r Hr. apply in_map_iff in Hr. destruct Hr as (x & <- & _). reflexivity.
+    + rewrite map_map. cbn [snd]. rewrite map_id. reflexivity.
+  - intros Hm. rewrite (report_errors_known _ _ _ _ Hm). reflexivity.
+Qed.
+
+Theorem reported_against_object O c st o a t :
+  raised_error_is_recorded O ->
+  docstring c o = Some (a :: t) -> pdoc st o = None ->
+  gives_up O c (applicable_format c o) (a :: t) ->
+  let r := format_docstring O c st o in
+  in_parse_errors (snd r) SEC_DOCSTRING o /\
+  (mem_pe SEC_DOCSTRING o (parse_errors st) = false ->
+   exists e d, reports (snd r) = reports st ++ (o, SEC_DOCSTRING, e) :: d /\ Forall (names o) d) /\
+  (mem_pe SEC_DOCSTRING o (parse_errors st) = true -> reports (snd r) = reports st) /\
+  touches_only o st (snd r) /\
+  format_docstring O c (snd r) o = (fst r, snd r).
+Proof.
+  intros Hc Hd Hp Hg. cbn zeta.
+  destruct (fallback_is_whole_text O c st o a t Hd Hp Hg) as (E & Hpd). rewrite E. cbn [fst snd].
+  destruct (parsed_state_reported O c st o (a :: t) (gives_up_errs_nonempty _ _ _ _ Hc Hg)) as (H1 & H2 & H3).
+  split; [exact H1|]. split.
+  - intros Hm. destruct (H2 Hm) as (e & d & R & Hn & _). exists e, d. split; assumption.
+  - split; [exact H3|]. split; [apply parsed_state_touches|].
+    apply (format_docstring_plain_cached _ _ _ _ _ _ Hd Hpd).
+Qed.
+
+(* without the contract: an exception other than ParseError is always reported *)
+Theorem exception_always_reported O c st o a t errs :
+  docstring c o = Some (a :: t) -> pdoc st o = None ->
+  effective_parser O c (applicable_format c o) (a :: t) = PRexc errs ->
+  in_parse_errors (snd (format_docstring O c st o)) SEC_DOCSTRING o /\
+  (mem_pe SEC_DOCSTRING o (parse_errors st) = false ->
+   In (o, SEC_DOCSTRING, EParseExc) (reports (snd (format_docstring O c st o)))).
+Proof.
+  intros Hd Hp E. rewrite (format_docstring_fresh _ _ _ _ _ _ Hd Hp).
+  assert (Ho : parse_outcome O c (applicable_format c o) (a :: t) = (PPlain (a :: t), errs ++ [EParseExc])).
+  { unfold parse_outcome. rewrite E. reflexivity. }
+  rewrite Ho. cbn [fst]. rewrite render_with_plain. cbn [snd].
+  unfold parsed_state, in_parse_errors. rewrite Ho. cbn [fst snd set_pdoc parse_errors reports].
+  assert (Hne : errs ++ [EParseExc] <> []) by (intros Hx; apply app_eq_nil in Hx; destruct Hx; discriminate).
+  split; [apply report_errors_mem_after; exact Hne|].
+  intros Hm. destruct (errs ++ [EParseExc]) as [|e l] eqn:El; [contradiction|].
+  rewrite (report_errors_new _ _ _ _ _ Hm). cbn [reports]. apply in_or_app. right.
+  apply in_map_iff. exists EParseExc. split; [reflexivity|]. rewrite <- El. apply in_or_app. right. left. reflexivity.
+Qed.
+
+(* ------------------------------------------------------------------ C08_rst_recovered_errors_reported *)
+Lemma render_with_pdoc O c st pd src : pdoc (snd (render_with O c st pd src)) = pdoc st.
+Proof. unfold render_with. cbn [snd]. rewrite format_fields_pdoc, safe_to_stan_pdoc. reflexivity. Qed.
+
+Lemma render_with_mem_monotone O c st pd src s x :
+  mem_pe s x (parse_errors st) = true -> mem_pe s x (parse_errors (snd (render_with O c st pd src))) = true.
+Proof.
+  intros H. unfold render_with. cbn [snd]. apply format_fields_mem_monotone, safe_to_stan_mem_monotone. exact H.
+Qed.
+
+Lemma render_with_reports_prefix O c st pd src :
+  exists d, reports (snd (render_with O c st pd src)) = reports st ++ d.
+Proof.
+  unfold render_with. cbn [snd].
+  destruct (safe_to_stan_touches O c st pd src FB_docstring true SEC_DOCSTRING) as (_ & d1 & R1 & _).
+  destruct (format_fields_reports_prefix O c (snd (safe_to_stan O c st pd src FB_docstring true SEC_DOCSTRING)) src (fields_p O pd))
+    as (d2 & R2).
+  exists (d1 ++ d2). rewrite R2, R1, app_assoc. reflexivity.
+Qed.
+
+Lemma render_with_body O c st p src :
+  d_body (fst (render_with O c st (PMark p) src)) =
+  BStan (match to_stan O p with
+         | Some s => SMark s
+         | None => match docstring c src with Some t => SPre t | None => SBroken end
+         end).
+Proof.
+  unfold render_with. cbn [fst d_body]. unfold safe_to_stan. cbn [to_stan_p].
+  destruct (to_stan O p) as [s|]; reflexivity.
+Qed.
+
+Theorem recovered_errors_reported O c st o a t p errs :
+  docstring c o = Some (a :: t) -> pdoc st o = None ->
+  effective_parser O c (applicable_format c o) (a :: t) = PRok (PMark p) errs -> errs <> [] ->
+  let r := format_docstring O c st o in
+  pdoc (snd r) o = Some (PMark p) /\
+  in_parse_errors (snd r) SEC_DOCSTRING o /\
+  (mem_pe SEC_DOCSTRING o (parse_errors st) = false ->
+   exists d, reports (snd r) = reports st ++ map (fun e => (o, SEC_DOCSTRING, e)) errs ++ d) /\
+  d_body (fst r) = BStan (match to_stan O p with Some s => SMark s | None => SPre (a :: t) end).
+Proof.
+  intros Hd Hp E Hne. cbn zeta. rewrite (format_docstring_fresh _ _ _ _ _ _ Hd Hp).
+  assert (Ho : parse_outcome O c (applicable_format c o) (a :: t) = (PMark p, errs)).
+  { unfold parse_outcome. rewrite E. reflexivity. }
+  rewrite Ho. cbn [fst].
+  assert (Hne' : snd (parse_outcome O c (applicable_format c o) (a :: t)) <> []) by (rewrite Ho; exact Hne).
+  destruct (parsed_state_reported O c st o (a :: t) Hne') as (H1 & H2 & _).
+  split; [rewrite render_with_pdoc, parsed_state_pdoc, Ho; reflexivity|].
+  split; [apply render_with_mem_monotone; exact H1|]. split.
+  - intros Hm. destruct (render_with_reports_prefix O c (parsed_state O c st o (a :: t)) (PMark p) o) as (d & R).
+    exists d. rewrite R. unfold parsed_state. rewrite Ho. cbn [fst snd set_pdoc reports].
+    destruct errs as [|e errs]; [contradiction|]. rewrite (report_errors_new _ _ _ _ _ Hm). cbn [reports].
+    rewrite app_assoc. reflexivity.
+  - rewrite render_with_body, Hd. reflexivity.
+Qed.
+
+(* ------------------------------------------------------------------ C08_to_stan_failure_fallback *)
+Lemma render_with_to_stan_fails O c st p src :
+  to_stan O p = None ->
+  let r := render_with O c st (PMark p) src in
+  d_body (fst r) = BStan (match docstring c src with Some t => SPre t | None => SBroken end) /\
+  in_parse_errors (snd r) SEC_DOCSTRING src /\
+  (mem_pe SEC_DOCSTRING src (parse_errors st) = false ->
+   exists d, reports (snd r) = reports st ++ (src, SEC_DOCSTRING, EToStanExc) :: d /\ Forall (names src) d) /\
+  (mem_pe SEC_DOCSTRING src (parse_errors st) = true -> reports (snd r) = reports st) /\
+  pdoc (snd r) = pdoc st.
+Proof.
+  intros Hts. cbn zeta. split; [rewrite render_with_body, Hts; reflexivity|].
+  assert (Hs : to_stan_p O (PMark p) = None) by (cbn [to_stan_p]; rewrite Hts; reflexivity).
+  unfold render_with. rewrite (safe_to_stan_fail _ _ _ _ _ _ _ _ Hs). cbn [run_fallback fst snd].
+  set (st1 := report_errors st src [EToStanExc] SEC_DOCSTRING).
+  assert (Hin : mem_pe SEC_DOCSTRING src (parse_errors st1) = true)
+    by (apply report_errors_mem_after; discriminate).
+  destruct (format_fields_quiet O c st1 src (fields_p O (PMark p)) Hin) as (Q1 & Q2 & Q3 & _).
+  unfold in_parse_errors. rewrite Q1, Q2, Q3. split; [exact Hin|]. split.
+  - intros Hm. unfold st1. rewrite (report_errors_new _ _ _ _ _ Hm). cbn [reports map].
+    exists []. split; [reflexivity|constructor].
+  - split; [intros Hm; unfold st1; rewrite (report_errors_known _ _ _ _ Hm); reflexivity|].
+    unfold st1. apply report_errors_pdoc.
+Qed.
+
+Theorem to_stan_failure_fallback O c st o p t :
+  pdoc st o = Some (PMark p) -> to_stan O p = None -> docstring c o = Some t ->
+  let r := format_docstring O c st o in
+  d_body (fst r) = BStan (SPre t) /\
+  in_parse_errors (snd r) SEC_DOCSTRING o /\
+  (mem_pe SEC_DOCSTRING o (parse_errors st) = false ->
+   exists d, reports (snd r) = reports st ++ (o, SEC_DOCSTRING, EToStanExc) :: d /\ Forall (names o) d) /\
+  d_body (fst (format_docstring O c (snd r) o)) = BStan (SPre t) /\
+  reports (snd (format_docstring O c (snd r) o)) = reports (snd r).
+Proof.
+  intros Hp Hts Hd. cbn zeta. rewrite (format_docstring_cached _ _ _ _ _ Hp), Hd.
+  destruct (render_with_to_stan_fails O c st p o Hts) as (B & I & R & _ & Pd). rewrite Hd in B.
+  split; [exact B|]. split; [exact I|]. split; [exact R|].
+  assert (Hp' : pdoc (snd (render_with O c st (PMark p) o)) o = Some (PMark p)) by (rewrite Pd; exact Hp).
+  rewrite (format_docstring_cached _ _ _ _ _ Hp'), Hd.
+  destruct (render_with_to_stan_fails O c (snd (render_with O c st (PMark p) o)) p o Hts) as (B2 & _ & _ & R2 & _).
+  rewrite Hd in B2. split; [exact B2|]. apply R2. exact I.
+Qed.
+
+(* a split field (documented by its parent's @ivar): the fallback is the PARENT's docstring, reported against the parent *)
+Theorem to_stan_failure_split_field O c st o q p :
+  docstring c o = None -> pdoc st o = Some (PMark p) -> parent c o = Some q -> to_stan O p = None ->
+  let r := format_docstring O c st o in
+  d_body (fst r) = BStan (match docstring c q with Some t => SPre t | None => SBroken end) /\
+  in_parse_errors (snd r) SEC_DOCSTRING q.
+Proof.
+  intros Hd Hp Hq Hts. cbn zeta. rewrite (format_docstring_cached _ _ _ _ _ Hp), Hd, Hq.
+  destruct (render_with_to_stan_fails O c st p q Hts) as (B & I & _). split; assumption.
+Qed.
+
+(* ------------------------------------------------------------------ format_summary *)
+Lemma get_parsed_summary_cached_doc O c st o pd d :
+  pdoc st o = Some pd -> docstring c o = Some d ->
+  get_parsed_summary O c st o =
+  match psum st o with
+  | Some ps => (Some o, ps, st)
+  | None => (Some o, get_summary O pd, set_psum st o (Some (get_summary O pd)))
+  end.
+Proof.
+  intros Hp Hd. unfold get_parsed_summary. rewrite (ensure_cached _ _ _ _ _ Hp), Hd, Hp. reflexivity.
+Qed.
+
+Theorem summary_fallback O c st o pd d s :
+  pdoc st o = Some pd -> docstring c o = Some d -> psum st o = None ->
+  get_summary O pd = PMark s -> to_stan O s = None ->
+  let r := format_summary O c st o in
+  fst r = SBroken /\
+  psum (snd r) o = Some (PStanOnly SBroken) /\
+  reports (snd r) = reports st /\ parse_errors (snd r) = parse_errors st /\ pdoc (snd r) = pdoc st /\
+  (forall x, x <> o -> psum (snd r) x = psum st x) /\
+  format_summary O c (snd r) o = (SBroken, snd r).
+Proof.
+  intros Hp Hd Hs Hg Hts. cbn zeta. unfold format_summary.
+  rewrite (get_parsed_summary_cached_doc _ _ _ _ _ _ Hp Hd), Hs, Hg.
+  assert (Hf : to_stan_p O (PMark s) = None) by (cbn [to_stan_p]; rewrite Hts; reflexivity).
+  rewrite (safe_to_stan_fail _ _ _ _ _ _ _ _ Hf). cbn [run_fallback fst snd].
+  split; [reflexivity|]. split; [cbn [set_psum psum]; apply upd_same|].
+  split; [reflexivity|]. split; [reflexivity|]. split; [reflexivity|]. split.
+  - intros x Hx. cbn [set_psum psum]. rewrite !upd_other by exact Hx. reflexivity.
+  - set (st' := set_psum (set_psum st o (Some (PMark s))) o (Some (PStanOnly SBroken))).
+    assert (Hp' : pdoc st' o = Some pd) by exact Hp.
+    rewrite (get_parsed_summary_cached_doc _ _ _ _ _ _ Hp' Hd).
+    assert (Hs' : psum st' o = Some (PStanOnly SBroken)) by (unfold st'; cbn [set_psum psum]; apply upd_same).
+    rewrite Hs'. reflexivity.
+Qed.
+
+(* get_summary itself failing (to_node / SummaryExtractor raise): "Broken summary", nothing reported *)
+Theorem summary_extraction_failure O c st o p d :
+  pdoc st o = Some (PMark p) -> docstring c o = Some d -> psum st o = None ->
+  summary_node O p = SumRaise ->
+  format_summary O c st o = (SBrokenSummary, set_psum st o (Some (PStanOnly SBrokenSummary))).
+Proof.
+  intros Hp Hd Hs Hn. unfold format_summary.
+  rewrite (get_parsed_summary_cached_doc _ _ _ _ _ _ Hp Hd), Hs. unfold get_summary. rewrite Hn. reflexivity.
+Qed.
+
+(* ------------------------------------------------------------------ non-interference *)
+Lemma source_is_self O c st o :
+  renders_own_docstring c st o ->
+  match fst (ensure_parsed_docstring O c st o) with Some s => s | None => o end = o.
+Proof. intros H. destruct (ensure_touches O c st o H) as (_ & [-> | ->]); reflexivity. Qed.
+
+Lemma format_docstring_touches O c st o :
+  renders_own_docstring c st o -> touches_only o st (snd (format_docstring O c st o)).
+Proof.
+  intros Hown. unfold format_docstring.
+  destruct (ensure_touches O c st o Hown) as (Ht & Hsrc).
+  destruct (ensure_parsed_docstring O c st o) as [src st1]. cbn [fst snd] in *.
+  destruct src as [src|]; [|exact Ht]. destruct Hsrc as [Hx|Hx]; [discriminate|]. injection Hx as ->.
+  destruct (pdoc st1 o) as [pd|]; [|exact Ht].
+  pose proof (safe_to_stan_touches O c st1 pd o FB_docstring true SEC_DOCSTRING) as H1.
+  destruct (safe_to_stan O c st1 pd o FB_docstring true SEC_DOCSTRING) as [s st2]. cbn [snd] in H1.
+  pose proof (format_fields_touches O c st2 o (fields_p O pd)) as H2.
+  destruct (format_fields O c st2 o (fields_p O pd)) as [fs st3]. cbn [snd] in *.
+  eapply touches_only_trans; [exact Ht|]. eapply touches_only_trans; eassumption.
+Qed.
+
+Lemma format_docstring_step2 O c s1 s2 o :
+  renders_own_docstring c s1 o -> same_view o s1 s2 ->
+  fst (format_docstring O c s1 o) = fst (format_docstring O c s2 o) /\
+  step2 o s1 s2 (snd (format_docstring O c s1 o)) (snd (format_docstring O c s2 o)).
+Proof.
+  intros Hown Hv. unfold format_docstring.
+  destruct (ensure_step2 O c s1 s2 o Hown Hv) as (Hf & Hs).
+  destruct (ensure_touches O c s1 o Hown) as (_ & Hsrc).
+  destruct (ensure_parsed_docstring O c s1 o) as [src1 t1]. destruct (ensure_parsed_docstring O c s2 o) as [src2 t2].
+  cbn [fst snd] in *. subst src2. pose proof Hs as ((Hp & _ & _) & _). rewrite <- Hp.
+  destruct src1 as [src|]; [|split; [reflexivity|exact Hs]].
+  destruct Hsrc as [Hx|Hx]; [discriminate|]. injection Hx as ->.
+  destruct (pdoc t1 o) as [pd|]; [|split; [reflexivity|exact Hs]].
+  destruct (safe_to_stan_step2 O c t1 t2 pd o FB_docstring true SEC_DOCSTRING (proj1 Hs)) as (Hf1 & Hs1).
+  destruct (safe_to_stan O c t1 pd o FB_docstring true SEC_DOCSTRING) as [x1 u1].
+  destruct (safe_to_stan O c t2 pd o FB_docstring true SEC_DOCSTRING) as [x2 u2]. cbn [fst snd] in *. subst x2.
+  destruct (format_fields_step2 O c u1 u2 o (fields_p O pd) (proj1 Hs1)) as (Hf2 & Hs2).
+  destruct (format_fields O c u1 o (fields_p O pd)) as [y1 v1].
+  destruct (format_fields O c u2 o (fields_p O pd)) as [y2 v2]. cbn [fst snd] in *. subst y2.
+  split; [reflexivity|]. eapply step2_trans; [exact Hs|]. eapply step2_trans; eassumption.
+Qed.
+
+Lemma format_summary_touches O c st o :
+  renders_own_docstring c st o -> touches_only o st (snd (format_summary O c st o)).
+Proof.
+  intros Hown. unfold format_summary, get_parsed_summary.
+  destruct (ensure_touches O c st o Hown) as (Ht & _). pose proof (source_is_self O c st o Hown) as Hself.
+  destruct (ensure_parsed_docstring O c st o) as [src st1]. cbn [fst snd] in *.
+  destruct (psum st1 o) as [ps|].
+  - rewrite Hself. eapply touches_only_trans; [exact Ht|apply safe_to_stan_touches].
+  - rewrite Hself. eapply touches_only_trans; [exact Ht|].
+    eapply touches_only_trans; [apply set_psum_touches|apply safe_to_stan_touches].
+Qed.
+
+Lemma format_summary_step2 O c s1 s2 o :
+  renders_own_docstring c s1 o -> same_view o s1 s2 ->
+  fst (format_summary O c s1 o) = fst (format_summary O c s2 o) /\
+  step2 o s1 s2 (snd (format_summary O c s1 o)) (snd (format_summary O c s2 o)).
+Proof.
+  intros Hown Hv. unfold format_summary, get_parsed_summary.
+  destruct (ensure_step2 O c s1 s2 o Hown Hv) as (Hf & Hs).
+  pose proof (source_is_self O c s1 o Hown) as Hself.
+  destruct (ensure_parsed_docstring O c s1 o) as [src1 t1]. destruct (ensure_parsed_docstring O c s2 o) as [src2 t2].
+  cbn [fst snd] in *. subst src2. pose proof Hs as ((Hp & Hq & _) & _). rewrite <- Hq, <- Hp.
+  destruct (psum t1 o) as [ps|].
+  - rewrite Hself.
+    destruct (safe_to_stan_step2 O c t1 t2 ps o FB_summary false SEC_DOCSTRING (proj1 Hs)) as (Hf1 & Hs1).
+    split; [exact Hf1|]. eapply step2_trans; eassumption.
+  - rewrite Hself.
+    set (sp := match src1, pdoc t1 o with Some _, Some pd => get_summary O pd | _, _ => PStanOnly (SUndocSpan o) end).
+    assert (Hs0 : step2 o s1 s2 (set_psum t1 o (Some sp)) (set_psum t2 o (Some sp)))
+      by (eapply set_psum_step2; [exact Hs|reflexivity|reflexivity]).
+    destruct (safe_to_stan_step2 O c _ _ sp o FB_summary false SEC_DOCSTRING (proj1 Hs0)) as (Hf1 & Hs1).
+    split; [exact Hf1|]. eapply step2_trans; eassumption.
+Qed.
+
+Lemma format_toc_touches O c st o :
+  renders_own_docstring c st o -> touches_only o st (snd (format_toc O c st o)).
+Proof.
+  intros Hown. unfold format_toc.
+  destruct (ensure_touches O c st o Hown) as (Ht & _).
+  destruct (ensure_parsed_docstring O c st o) as [src st1]. cbn [fst snd] in *.
+  destruct (pdoc st1 o) as [pd|]; [|exact Ht]. destruct (toc_enabled c); [|exact Ht].
+  destruct (get_toc O pd) as [[tp|]|]; try exact Ht.
+  pose proof (safe_to_stan_touches O c st1 tp o FB_broken false SEC_DOCSTRING) as H1.
+  destruct (safe_to_stan O c st1 tp o FB_broken false SEC_DOCSTRING) as [s st2]. cbn [snd] in *.
+  eapply touches_only_trans; eassumption.
+Qed.
+
+Lemma format_toc_step2 O c s1 s2 o :
+  renders_own_docstring c s1 o -> same_view o s1 s2 ->
+  fst (format_toc O c s1 o) = fst (format_toc O c s2 o) /\
+  step2 o s1 s2 (snd (format_toc O c s1 o)) (snd (format_toc O c s2 o)).
+Proof.
+  intros Hown Hv. unfold format_toc.
+  destruct (ensure_step2 O c s1 s2 o Hown Hv) as (_ & Hs).
+  destruct (ensure_parsed_docstring O c s1 o) as [src1 t1]. destruct (ensure_parsed_docstring O c s2 o) as [src2 t2].
+  cbn [fst snd] in *. pose proof Hs as ((Hp & _ & _) & _). rewrite <- Hp.
+  destruct (pdoc t1 o) as [pd|]; [|split; [reflexivity|exact Hs]].
+  destruct (toc_enabled c); [|split; [reflexivity|exact Hs]].
+  destruct (get_toc O pd) as [[tp|]|]; try (split; [reflexivity|exact Hs]).
+  destruct (safe_to_stan_step2 O c t1 t2 tp o FB_broken false SEC_DOCSTRING (proj1 Hs)) as (Hf1 & Hs1).
+  destruct (safe_to_stan O c t1 tp o FB_broken false SEC_DOCSTRING) as [x1 u1].
+  destruct (safe_to_stan O c t2 tp o FB_broken false SEC_DOCSTRING) as [x2 u2]. cbn [fst snd] in *. subst x2.
+  split; [reflexivity|]. eapply step2_trans; eassumption.
+Qed.
+
+Lemma run_opk_touches O c st k o :
+  renders_own_docstring c st o -> touches_only o st (snd (run_opk O c st k o)).
+Proof.
+  intros H. destruct k; cbn [run_opk].
+  - pose proof (format_docstring_touches O c st o H) as T. destruct (format_docstring O c st o). exact T.
+  - pose proof (format_summary_touches O c st o H) as T. destruct (format_summary O c st o). exact T.
+  - pose proof (format_toc_touches O c st o H) as T. destruct (format_toc O c st o). exact T.
+Qed.
+
+Lemma run_opk_step2 O c s1 s2 k o :
+  renders_own_docstring c s1 o -> same_view o s1 s2 ->
+  fst (run_opk O c s1 k o) = fst (run_opk O c s2 k o) /\
+  step2 o s1 s2 (snd (run_opk O c s1 k o)) (snd (run_opk O c s2 k o)).
+Proof.
+  intros H V. destruct k; cbn [run_opk].
+  - destruct (format_docstring_step2 O c s1 s2 o H V) as (F & S).
+    destruct (format_docstring O c s1 o), (format_docstring O c s2 o). cbn [fst snd] in *. subst. split; [reflexivity|exact S].
+  - destruct (format_summary_step2 O c s1 s2 o H V) as (F & S).
+    destruct (format_summary O c s1 o), (format_summary O c s2 o). cbn [fst snd] in *. subst. split; [reflexivity|exact S].
+  - destruct (format_toc_step2 O c s1 s2 o H V) as (F & S).
+    destruct (format_toc O c s1 o), (format_toc O c s2 o). cbn [fst snd] in *. subst. split; [reflexivity|exact S].
+Qed.
+
+(* C08_isolation: non-interference *)
+Theorem isolation_noninterference O c s1 s2 k o :
+  renders_own_docstring c s1 o -> same_view o s1 s2 ->
+  fst (run_opk O c s1 k o) = fst (run_opk O c s2 k o) /\
+  same_view o (snd (run_opk O c s1 k o)) (snd (run_opk O c s2 k o)) /\
+  exists d, reports (snd (run_opk O c s1 k o)) = reports s1 ++ d /\
+            reports (snd (run_opk O c s2 k o)) = reports s2 ++ d.
+Proof.
+  intros H V. destruct (run_opk_step2 O c s1 s2 k o H V) as (F & S & D). split; [exact F|]. split; [exact S|exact D].
+Qed.
+
+(* ... and its consequence: whatever was rendered for o before, o' renders the same *)
+Theorem isolation_other_object O c st k k' o o' :
+  o <> o' -> renders_own_docstring c st o -> renders_own_docstring c st o' ->
+  let st1 := snd (run_opk O c st k o) in
+  fst (run_opk O c st1 k' o') = fst (run_opk O c st k' o') /\
+  exists d, reports (snd (run_opk O c st1 k' o')) = reports st1 ++ d /\
+            reports (snd (run_opk O c st k' o')) = reports st ++ d.
+Proof.
+  intros Hne Ho Ho'. cbn zeta.
+  destruct (run_opk_touches O c st k o Ho) as (Hfr & _).
+  assert (Hv : same_view o' st (snd (run_opk O c st k o))) by (apply Hfr; congruence).
+  assert (Ho1 : renders_own_docstring c (snd (run_opk O c st k o)) o').
+  { destruct Ho' as [H|H]; [left; exact H|right]. destruct Hv as (Hp & _). rewrite <- Hp. exact H. }
+  destruct (isolation_noninterference O c _ st k' o' Ho1 (same_view_sym _ _ _ Hv)) as (F & _ & D).
+  split; [exact F|exact D].
+Qed.
+
+(* ------------------------------------------------------------------ format_toc totality *)
+Theorem toc_raises_iff O c st o :
+  fst (format_toc O c st o) = Raised <->
+  toc_enabled c = true /\
+  exists p, pdoc (snd (ensure_parsed_docstring O c st o)) o = Some (PMark p) /\ toc_of O p = TocRaise.
+Proof.
+  unfold format_toc. destruct (ensure_parsed_docstring O c st o) as [src st1]. cbn [snd].
+  destruct (pdoc st1 o) as [pd|] eqn:Hp.
+  - destruct (toc_enabled c).
+    + destruct pd as [t|p|s]; cbn [get_toc fst].
+      * split; [discriminate|intros (_ & p & E & _); discriminate].
+      * destruct (toc_of O p) as [| | |tp] eqn:Et; cbn [fst].
+        -- split; [discriminate|intros (_ & q & E & Eq); injection E as <-; congruence].
+        -- split; [intros _; split; [reflexivity|exists p; split; [reflexivity|exact Et]]|reflexivity].
+        -- split; [discriminate|intros (_ & q & E & Eq); injection E as <-; congruence].
+        -- destruct (safe_to_stan O c st1 (PMark tp) o FB_broken false SEC_DOCSTRING). cbn [fst].
+           split; [discriminate|intros (_ & q & E & Eq); injection E as <-; congruence].
+      * split; [discriminate|intros (_ & p & E & _); discriminate].
+    + cbn [fst]. split; [discriminate|intros (E & _); discriminate].
+  - cbn [fst]. split; [discriminate|intros (_ & p & E & _); discriminate].
+Qed.
+
+(* ------------------------------------------------------------------ epytext tail *)
+Lemma find_first_fatal (errors : list (N * bool)) e :
+  first_fatal errors e -> find (fun x => snd x) errors = Some e.
+Proof.
+  intros (pre & post & -> & Hf & Hpre). induction pre as [|x pre IH]; cbn [app find].
+  - rewrite Hf. reflexivity.
+  - inversion Hpre as [|? ? Hx Hrest]; subst. rewrite Hx. apply IH. exact Hrest.
+Qed.
+
+Lemma find_some_first_fatal (errors : list (N * bool)) e :
+  find (fun x => snd x) errors = Some e -> first_fatal errors e.
+Proof.
+  induction errors as [|x l IH]; cbn [find]; [discriminate|].
+  destruct (snd x) eqn:Hx.
+  - intros [= <-]. exists [], l. repeat split; [exact Hx|constructor].
+  - intros H. destruct (IH H) as (pre & post & -> & Hf & Hpre). exists (x :: pre), post.
+    repeat split; [exact Hf|constructor; assumption].
+Qed.
+
+Theorem epytext_fatal_raises {T} (errors : list (N * bool)) (tree : T) :
+  (forall e, In e errors -> snd e = true ->
+             exists e0, epytext_tail errors tree = inl e0 /\ first_fatal errors e0 /\ In e0 errors) /\
+  ((forall e, In e errors -> snd e = false) -> epytext_tail errors tree = inr tree).
+Proof.
+  unfold epytext_tail. split.
+  - intros e Hin Hf. destruct (find (fun x => snd x) errors) as [e0|] eqn:E.
+    + exists e0. split; [reflexivity|]. split; [apply find_some_first_fatal; exact E|].
+      apply find_some in E. apply E.
+    + pose proof (find_none _ _ E e Hin) as Hx. cbn beta in Hx. congruence.
+  - intros Hall. destruct (find (fun x => snd x) errors) as [e0|] eqn:E; [|reflexivity].
+    apply find_some in E. destruct E as (Hin & Hf). rewrite (Hall e0 Hin) in Hf. discriminate.
+Qed.
+
+(* so epytext.parse_docstring, seen as a parser oracle, meets the contract of C08_reported_against_object *)
+Lemma epytext_presult_contract errors p errs :
+  epytext_presult errors p = PR_parse_error errs -> errs <> [].
+Proof.
+  unfold epytext_presult, epytext_tail. destruct (find (fun x => snd x) errors) as [e0|] eqn:E; [|discriminate].
+  intros [= <-]. apply find_some in E. destruct E as (Hin & _). destruct errors; [destruct Hin|discriminate].
+Qed.
+
+(* ------------------------------------------------------------------ ParsedEpytextDocstring.to_node caching *)
+Lemma epytext_to_node_stable has_tree d document :
+  let r1 := epytext_to_node has_tree (ConvOk d) document in
+  let r2 := epytext_to_node has_tree (ConvOk d) (snd r1) in
+  fst r2 = fst r1 /\ snd r2 = snd r1 /\ fst r1 <> Raised.
+Proof.
+  destruct document as [x|]; cbn [epytext_to_node fst snd]; [repeat split; discriminate|].
+  destruct has_tree; cbn [epytext_to_node fst snd]; repeat split; discriminate.
+Qed.
